@@ -7,6 +7,7 @@
   declares `a` at level 1 first).
 -/
 import DDProofs.SmallConstructor
+import DDProofs.ConstructorAgree
 open Std
 
 namespace DD
@@ -40,5 +41,84 @@ example : ∃ m, mkBDD [("a", 1), ("b", 0)] = .ok m ∧ GoodState m (fun _ => 0)
   exact ⟨m, h1, h2, (hv "a" 1).mpr (by simp), (hl 0 "b").mpr (by simp)⟩
 example : mkBDD [("a", 0), ("b", 0)] = .error .assertion ∧ mkBDD [("a", 0), ("b", 2)] = .error .assertion :=
   ⟨(C02_constructor _).2 (by decide), (C02_constructor _).2 (by decide)⟩
+
+/-! ### ONE constructor
+
+`mkBDD` above is the constructor call inside `_load_manager`; the line-protocol driver's op `new`
+runs `newMgr` = `newMgrCore` (`newMgr_eq_core`, DDProofs.Reach4New), for which
+`newMgrCore_start` (DDProofs.Reach4Start) is the base case of the every-history theorems.  They
+are the same function (`mkBDD_eq_newMgrCore`, DDProofs.ConstructorAgree), so there is one
+constructor theorem: `C02_constructor_driver` below is `C02_constructor` TRANSPORTED along that
+equation to the function the driver runs, and its conclusion contains that of
+`newMgrCore_start`. -/
+
+/-- the two models of `BDD(levels)` agree: on natural levels `mkBDD` is the driver's `newMgrCore`
+read through the change of result type; the remaining inputs of `newMgrCore` (a negative level)
+are refused by `_assert_valid_ordering`; the two transcriptions of the check agree -/
+theorem C02_constructor_models_agree :
+    (∀ levels : List (String × Nat), mkBDD levels = asMkBDD (newMgrCore (castLevels levels))) ∧
+    (∀ levels : List (String × Nat), newMgrCheck (castLevels levels) = validOrdering levels) ∧
+    (∀ levels : List (String × Int), (∃ p ∈ levels, p.2 < 0) →
+      newMgrCore levels = (.error .assertion, {})) ∧
+    (∀ levels : List (String × Int), (∀ p ∈ levels, 0 ≤ p.2) →
+      levels = castLevels (levels.map fun p => (p.1, p.2.toNat))) :=
+  ⟨mkBDD_eq_newMgrCore, newMgrCheck_cast, newMgrCore_negative, eq_castLevels_of_nonneg⟩
+
+/-- C02 (`BDD(levels)`, the function the DRIVER runs; integer levels): the statement of
+`C02_constructor`, obtained from it through `mkBDD_eq_newMgrCore` — a dictionary (distinct names)
+that passes `_assert_valid_ordering` gives a good manager for the empty ledger, declaring exactly
+the given pairs in both views, with no node, no root and no schedule (`GoodParts`: the start of
+`reachable4_from_parts`); any table that fails the check — a negative level included — raises
+`AssertionError` and leaves no manager. -/
+theorem C02_constructor_driver (levels : List (String × Int)) :
+    ((levels.map (·.1)).Nodup → newMgrCheck levels = true →
+      (newMgrCore levels).1 = .ok () ∧
+      GoodState (newMgrCore levels).2 (fun _ => 0) ∧ GoodParts (newMgrCore levels).2 (fun _ => 0) ∧
+      (∀ (v : String) (l : Nat),
+        (newMgrCore levels).2.tbl.vars[v]? = some l ↔ (v, (l : Int)) ∈ levels) ∧
+      (∀ (l : Nat) (v : String),
+        (newMgrCore levels).2.tbl.l2v[l]? = some v ↔ (v, (l : Int)) ∈ levels) ∧
+      (newMgrCore levels).2.tbl.nvars = levels.length ∧
+      (newMgrCore levels).2.tbl.succ = ({} : Mgr).tbl.succ ∧ (newMgrCore levels).2.roots = []) ∧
+    (newMgrCheck levels = false → newMgrCore levels = (.error .assertion, {})) := by
+  refine ⟨fun hnames hchk => ?_, newMgrCore_refused levels⟩
+  have hnn : ∀ p ∈ levels, 0 ≤ p.2 := fun p hp => ((newMgrCheck_nodup levels hchk).2.1 p hp).1
+  have hcast := eq_castLevels_of_nonneg levels hnn
+  generalize hL : (levels.map fun p => (p.1, p.2.toNat)) = nat at hcast
+  have hnames' : (nat.map (·.1)).Nodup := by
+    rw [← castLevels_names, ← hcast]; exact hnames
+  have hvalid : validOrdering nat = true := by
+    rw [← newMgrCheck_cast, ← hcast]; exact hchk
+  obtain ⟨m, hm, hg, hv, hl, hn, hs, hr⟩ := (C02_constructor nat).1 hnames' hvalid
+  rw [mkBDD_eq_newMgrCore, ← hcast] at hm
+  have hparts := (newMgrCore_good levels hnames hchk).2.1
+  have hlen : nat.length = levels.length := by rw [hcast, castLevels_length]
+  generalize newMgrCore levels = res at hm hparts ⊢
+  obtain ⟨r, m1⟩ := res
+  cases r with
+  | error e => cases hm
+  | ok x =>
+    cases hm
+    refine ⟨rfl, hg, hparts, fun v l => ?_, fun l v => ?_, hn.trans hlen, hs, hr⟩
+    · rw [hv v l, hcast, mem_castLevels]
+    · rw [hl l v, hcast, mem_castLevels]
+
+/-- non-vacuity (the driver's function): `BDD({'a': 1, 'b': 0})` is accepted, `{'a': -1, 'b': 0}`
+and `{'a': 0, 'b': 2}` raise; and `mkBDD` gives the very same manager -/
+example : (newMgrCore [("a", 1), ("b", 0)]).1 = .ok () ∧
+    GoodState (newMgrCore [("a", 1), ("b", 0)]).2 (fun _ => 0) ∧
+    (newMgrCore [("a", 1), ("b", 0)]).2.tbl.l2v[0]? = some "b" ∧
+    newMgrCore [("a", -1), ("b", 0)] = (.error .assertion, {}) ∧
+    newMgrCore [("a", 0), ("b", 2)] = (.error .assertion, {}) ∧
+    mkBDD [("a", 1), ("b", 0)] = .ok (newMgrCore [("a", 1), ("b", 0)]).2 := by
+  obtain ⟨h1, h2, -, -, hl, -⟩ := (C02_constructor_driver [("a", 1), ("b", 0)]).1 (by decide) (by decide)
+  refine ⟨h1, h2, (hl 0 "b").mpr (by simp), (C02_constructor_driver _).2 (by decide),
+    (C02_constructor_driver _).2 (by decide), ?_⟩
+  rw [mkBDD_eq_newMgrCore]
+  show asMkBDD (newMgrCore [("a", 1), ("b", 0)]) = _
+  generalize newMgrCore [("a", 1), ("b", 0)] = res at h1 ⊢
+  obtain ⟨r, m⟩ := res
+  cases h1
+  rfl
 
 end DD
